@@ -140,3 +140,22 @@ CONTRACTS.append(Contract(
         ('a-missing-class-is-reported-as-INVALID_CLASS',
          f'implies(not old({NEWCLS_OK}), exc.status_code in (CIM_ERR_INVALID_NAMESPACE, CIM_ERR_INVALID_CLASS))')])},
 ))
+
+# ---- _validate_property: a property of a new / modified instance passes only if it is declared in the creation class
+# with the same type AND the same array-ness - whatever its value, NULL included; every rejection is INVALID_PARAMETER
+CLASS_SPECS['CIMProperty'].update({'type': Str, 'is_array': Bool, 'value': Union(NoneT, Str, Ref('CIMInstance'), Ref('CIMClass')),
+                                   'qualifiers': Ref('NocaseDict')})
+CLASS_SPECS['CIMQualifier'] = {'value': Opt(Str)}
+is_subclass_c = Contract('pywbem_mock/_baseprovider.py::BaseProvider.is_subclass', returns=Bool, trusted=True)
+VP_I = 'instance.properties[prop_name]'
+VP_C = 'creation_class.properties[prop_name]'
+CONTRACTS.append(Contract(
+    PD + '_validate_property',
+    params={'self': DISPATCHER, 'prop_name': Str, 'instance': Ref('CIMInstance'), 'creation_class': Ref('CIMClass'),
+            'namespace': Str, 'class_store': Ref('InMemoryObjectStore')},
+    callees={'is_subclass': is_subclass_c},
+    ensures=[('declared-in-the-creation-class', 'prop_name in creation_class.properties'),
+             ('declared-type', f'{VP_I}.type == {VP_C}.type'),
+             ('declared-array-ness-whatever-the-value', f'{VP_I}.is_array == {VP_C}.is_array')],
+    raises={'CIMError': Raises(post=[('always-INVALID_PARAMETER', 'exc.status_code == CIM_ERR_INVALID_PARAMETER')])},
+))
